@@ -26,12 +26,14 @@ RULE = (
     "generated JSON path (delete a key; unknown discriminator literal; object or array replaced by a string or null; "
     "unknown bound literal; unknown top-level key); acceptance by the strict / lax pydantic models (rebuilt as the "
     "script does, in a worker process) must equal acceptance by jsonschema on the published strict / lax file. "
+    "strict-config sub-check: in the strict configuration an unknown key or an integer written as a string at a generated "
+    "place (inside nodes[*] at any depth, or at the top level) is judged alike by decoder and schema. "
     "accepted-keys clause (exhaustive over the fields of every serialization model): the keys a model reads (name, alias, "
     "validation-alias choices) are exactly the properties of its published definition. "
     "Non-trivial = mutated path inside nodes[*], a type, a value or an op def; distinct by canonical JSON."
 )
 ASSUMPTIONS = [
-    "excluded mutation classes (pydantic and JSON Schema differ by design): scalar coercions, tuple prefixItems (edges), unknown keys inside nested models",
+    "excluded mutation classes (pydantic and JSON Schema differ by design): scalar coercions and unknown keys in the lax configuration, tuple prefixItems (edges)",
     "jsonschema Draft 2020-12 implementation is trusted",
 ]
 
@@ -390,10 +392,56 @@ def _deletes_version(case) -> bool:
     return True
 
 
-REQUIRES = {"deletes-top-level-version": _deletes_version}
+# ------------------------------------------------------------------ the strict configuration reaches every nested model
+
+
+def check_strict(case) -> list[Fail]:
+    """Strict configuration only (the lax decoder coerces scalars and keeps unknown keys by design): a key
+    the schema does not know, or an integer written as a string, at a generated place of a valid HUGR
+    document must be judged alike by the strict decoder and the strict schema."""
+    kind, doc = base_doc(case)
+    d = copy.deepcopy(doc)
+    ps = [(p, n) for p, n in paths(d) if (len(p) >= 2 and p[0] == "nodes") == (case["where"] == "nested") and (case["where"] == "nested" or p == ())]
+    if not ps:
+        raise InvalidCase("no such place")
+    p, node = ps[case["sel1"] % len(ps)]
+    if case["mut"] == "unknown-key":
+        node["zz_unknown_key"] = 1
+        at = p + ("zz_unknown_key",)
+    else:
+        ks = [k for k in sorted(node) if isinstance(node[k], int) and not isinstance(node[k], bool)]
+        if not ks:
+            raise InvalidCase("no integer field")
+        k = ks[case["sel2"] % len(ks)]
+        node[k] = str(node[k])
+        at = p + (k,)
+    a = pydantic_accepts("strict", kind, d)
+    b = schema_accepts("strict", kind, d)
+    if isinstance(a, str):
+        return [Fail("pydantic-error", f"strict:{a}", case["mut"])]
+    if a != b:
+        return [Fail("strict-config", f"{case['mut']}:{case['where']}:{'decoder' if a else 'schema'}-accepts", f"strict {kind}: decoder accepts={a} schema accepts={b} at {at}")]
+    return []
+
+
+def strict_strategy(tier):
+    return st.fixed_dictionaries(
+        {
+            "src": proggen.programs(size=8, max_depth=1, detached=False).map(lambda p: {"kind": "hugr", "prog": p}),
+            "mut": st.sampled_from(["unknown-key", "int-as-string"]),
+            "where": st.sampled_from(["nested", "nested", "nested", "top"]),
+            "sel1": st.integers(0, 400),
+            "sel2": st.integers(0, 10),
+        }
+    )
+
+
+REQUIRES = {"deletes-top-level-version": _deletes_version, "strict-config-inside-unions": lambda case: case.get("where") == "nested"}
 
 SUBS = [
     Sub("sweep", check_sweep, strategy=sweep_strategy, nontrivial=lambda c: True, classes=lambda c: [c["src"]["kind"]], n_quick=5, n_thorough=40, sample_ok=lambda c: len(json.dumps(c)) < 2500),
     Sub("files", check_version, enumerate=enum_files, nontrivial=lambda c: True, exhaustive=True, shardable=False),
+    Sub("strict-config", check_strict, strategy=strict_strategy, nontrivial=lambda c: c["where"] == "nested", classes=lambda c: [c["mut"] + ":" + c["where"]], n_quick=60, n_thorough=600,
+        sample_ok=lambda c: len(json.dumps(c)) < 2500),
     Sub("differential", check_diff, strategy=diff_strategy, nontrivial=nt_diff, classes=lambda c: [c["mut"], c["src"]["kind"]], n_quick=150, n_thorough=1500, sample_ok=lambda c: len(json.dumps(c)) < 2500),
 ]
